@@ -49,10 +49,19 @@ Definition ensure (s : st) (h : string) : st :=
   | None => mkSt (supd (sres s) h (mkSlot VD VD)) (sdirty s)
   end.
 
+(* the initialiser of a procedure local: a constant, a parameter, or a parameter plus a constant (int32 range
+   checked, as ModulePlusSymbol) — evaluated by the PreAmble with iface.Read, after the arguments are bound *)
+Inductive pexp := PC (v : val) | PRead (y : string) | PAdd (y : string) (k : Z).
+
+Definition in_i32 (z : Z) : bool := ((-2147483648 <=? z)%Z && (z <=? 2147483647)%Z)%bool.
+Definition padd (v : val) (k : Z) : option val :=
+  match v with VI z => if in_i32 (z + k) then Some (VI (z + k)) else None | _ => None end.
+Definition psrc (e : pexp) : list string := match e with PC _ => [] | PRead y => [y] | PAdd y _ => [y] end.
+
 Record proc := mkProc {
   p_label : string;                 (* first label *)
   p_vars : list string;             (* StateVars: parameters then locals *)
-  p_pre : list (string * val)       (* PreAmble: writes initialising locals *)
+  p_pre : list (string * pexp)      (* PreAmble: writes initialising locals *)
 }.
 
 Record table := mkTable {
@@ -96,10 +105,24 @@ Fixpoint save_bind (s : st) (vars : list string) (args : list val) (frame : list
       end
   end.
 
-Fixpoint write_all (s : st) (ws : list (string * val)) : option st :=
+Definition peval_impl (s : st) (e : pexp) : option (st * val) :=
+  match e with
+  | PC v => Some (s, v)
+  | PRead y => iread s y
+  | PAdd y k => match iread s y with
+                | Some (s1, v) => match padd v k with Some w => Some (s1, w) | None => None end
+                | None => None
+                end
+  end.
+
+Fixpoint write_all (s : st) (ws : list (string * pexp)) : option st :=
   match ws with
   | [] => Some s
-  | (x, v) :: r => match iwrite s x v with Some s' => write_all s' r | None => None end
+  | (x, e) :: r =>
+      match peval_impl s e with
+      | Some (s1, v) => match iwrite s1 x v with Some s2 => write_all s2 r | None => None end
+      | None => None
+      end
   end.
 
 (* Goto: the label must be in the jump table *)
@@ -202,8 +225,14 @@ Fixpoint bind_args (f : string -> val) (vars : list string) (args : list val) : 
   | _, _ => f
   end.
 
-Fixpoint set_all (f : string -> val) (ws : list (string * val)) : string -> val :=
-  match ws with [] => f | (x, v) :: r => set_all (vset f x v) r end.
+Definition peval (f : string -> val) (e : pexp) : option val :=
+  match e with PC v => Some v | PRead y => Some (f y) | PAdd y k => padd (f y) k end.
+
+Fixpoint set_all (f : string -> val) (ws : list (string * pexp)) : option (string -> val) :=
+  match ws with
+  | [] => Some f
+  | (x, e) :: r => match peval f e with Some v => set_all (vset f x v) r | None => None end
+  end.
 
 Definition call_spec (t : table) (g : sp) (pname ret : string) (args : list val) : option sp :=
   match find_proc (t_procs t) pname with
@@ -211,9 +240,12 @@ Definition call_spec (t : table) (g : sp) (pname ret : string) (args : list val)
   | Some p =>
       if Nat.ltb (List.length (p_vars p)) (List.length args) then None
       else if has_label t (p_label p) then
-        Some (mkSp (set_all (bind_args (v_vars g) (p_vars p) args) (p_pre p))
-                   (((VS ".pc", VS ret) :: map (fun x => (VS x, v_vars g x)) (p_vars p)) :: v_stack g)
-                   (VS (p_label p)))
+        match set_all (bind_args (v_vars g) (p_vars p) args) (p_pre p) with
+        | Some f' => Some (mkSp f'
+                             (((VS ".pc", VS ret) :: map (fun x => (VS x, v_vars g x)) (p_vars p)) :: v_stack g)
+                             (VS (p_label p)))
+        | None => None
+        end
       else None
   end.
 
@@ -356,8 +388,6 @@ Inductive stmt :=
 | TRet
 | TGoto (l : string)
 | TDone.
-
-Definition in_i32 (z : Z) : bool := ((-2147483648 <=? z)%Z && (z <=? 2147483647)%Z)%bool.
 
 Inductive xr (A : Type) := ROk (a : A) | RRefuse (s : xst) | RCrash.
 Arguments ROk {A} a. Arguments RRefuse {A} s. Arguments RCrash {A}.
